@@ -438,14 +438,19 @@ def rule_cap(chk, tf: TestFacts, rule):
 
 
 def rule_overall_matches_history(chk, tf: TestFacts, rule):
-    """overall == extremum of the same history under random_order, else its last entry."""
+    """overall == extremum of the same history under random_order, else its last entry.
+    One obligation per value of random_order; the key records what the code returns
+    instead (extremum / last / other) so that a known finding covers exactly one
+    specific deviation."""
     name = tf.name
     an = tf.an
-    ok = True
-    detail = {}
-    n_rows = 0
-    for row0 in tf.rows:
-        for rnd in (True, False):
+    late = nnm.stale_statistic_uses(an, an.ret.value.elts[0])
+    for rnd in (True, False):
+        ok = True
+        observed = set()
+        detail = {}
+        n_rows = 0
+        for row0 in tf.rows:
             row = dict(row0)
             if RAND in row and row[RAND] != rnd:
                 continue
@@ -454,34 +459,41 @@ def rule_overall_matches_history(chk, tf: TestFacts, rule):
             if any(not eval_cond(gd, {**{a: False for a in cond_atoms(gd)}, **row}) for gd in an.tx.guards):
                 continue
             n_rows += 1
-            o = eval_val(an.overall, row)
+            o = _norm_extrema(eval_val(an.overall, row))
             h = eval_val(an.history, row)
             kind, X = nnm.history_shape(h)
             if kind is None:
                 ok = False
-                detail["reason"] = "history is not of the capped form"
+                observed.add("history-not-capped")
                 continue
             if kind == "inv":
-                want = sp.Min(1, 1 / sp.Function("np.max")(X)) if rnd else sp.Min(1, 1 / sp.Function("index")(X, -1))
-                alts = [want]
-                if not rnd:
-                    pass
+                ext = sp.Min(1, 1 / sp.Function("MAX")(X))
+                last = sp.Min(1, 1 / sp.Function("index")(X, -1))
             else:
-                want = sp.Min(1, sp.Function("np.min")(X)) if rnd else sp.Min(1, sp.Function("index")(X, -1))
-                alts = [want]
-            o_n = _norm_extrema(o)
-            if not any(o_n == _norm_extrema(w) for w in alts):
+                ext = sp.Min(1, sp.Function("MIN")(X))
+                last = sp.Min(1, sp.Function("index")(X, -1))
+            want = ext if rnd else last
+            cls = "extremum" if o == ext else ("last" if o == last else "other")
+            # an uncapped but otherwise right value is C11.R1's business, not this rule's
+            if cls == "other":
+                o_c = sp.Min(1, o)
+                cls = "extremum" if o_c == ext else ("last" if o_c == last else "other")
+            observed.add(cls)
+            if cls != ("extremum" if rnd else "last"):
                 ok = False
-                detail[f"random_order={rnd}"] = {"overall": sp.sstr(o)[:240], "expected": sp.sstr(want)[:240]}
-    # the overall value must be computed after the last in-place store to the statistic
-    ret_line = an.ret.lineno
-    late = [st.lineno for st, *_ in an.stores if st.lineno > ret_line]
-    if late:
-        ok = False
-        detail["stores_after_return"] = late
-    chk.ob(rule, W(name), "overall-vs-history", ok,
-           "overall p-value == smallest history entry when random_order, == last entry otherwise "
-           "(both computed from the same final statistic)", node=an.ret, rows=n_rows, **detail)
+                detail["overall"] = sp.sstr(o)[:240]
+                detail["expected"] = sp.sstr(want)[:240]
+        if late:
+            ok = False
+            observed.add("computed-before-overrides")
+            detail["stale_lines"] = late
+        if n_rows == 0:
+            continue
+        got = "+".join(sorted(observed))
+        chk.ob(rule, W(name), f"overall-vs-history[random_order={rnd}]:returns-{got}", ok,
+               f"with random_order={rnd} the overall p-value is the "
+               f"{'smallest history entry' if rnd else 'last history entry'} of the same final statistic",
+               node=an.ret, rows=n_rows, **detail)
 
 
 def _norm_extrema(e):
